@@ -71,6 +71,8 @@ Fixpoint replay_loop (fuel : nat) (ccrc first : bool) (fsz pos : Z) (l : bytes) 
     end
   end.
 
+Definition fpos_rebased : bool := WAL_REPLAY_REBASES_FPOS =? 1.
+
 (* the operations the replay performs for a log, per mode; rfoff = wal->rollforward_offset (mode 0 only) *)
 Definition replay_ops_with (spchk ccrc : bool) (mode rfoff : Z) (wal : bytes) : verdict * list aop :=
   let fsz := Z.of_nat (length wal) in
@@ -80,9 +82,11 @@ Definition replay_ops_with (spchk ccrc : bool) (mode rfoff : Z) (wal : bytes) : 
     if fpos =? 0 then (VOk, []) else
     if (rpos >? 0) && (mode =? 1) then
       if fpos <? rpos then (VOk, []) else
-      (* wmm += rpos - sizeof(WBSEP); fsz -= ...;  fpos is NOT rebased in the C code *)
+      (* wmm += rpos - sizeof(WBSEP); fsz -= ...;  the pinned C code does NOT rebase fpos, so the loop never
+         meets `fpos == rp - wmm` and runs to the end of the file; fixes/wal-reset-rebase.diff adds
+         `fpos -= rpos`.  fpos_rebased is the regenerated fact saying which of the two the current tree does. *)
       let r := rpos - sizeof_WBSEP in
-      replay_loop (S (length wal)) ccrc true (fsz - r) 0 (skipn (Z.to_nat r) wal) fpos
+      replay_loop (S (length wal)) ccrc true (fsz - r) 0 (skipn (Z.to_nat r) wal) (if fpos_rebased then fpos - r else fpos)
     else replay_loop (S (length wal)) ccrc true fsz 0 wal fpos
   else if rfoff >? 0 then
     if rfoff >=? fsz then (VCorrupt, []) else
